@@ -114,13 +114,18 @@ where
                 SockRecv(Result<usize, std::io::Error>),
             }
 
-            let mut buf = [0; SOCK_SAMPLE_SIZE];
+            // One byte more than a sample, so that a longer (truncated) datagram
+            // is reported with a size different from SOCK_SAMPLE_SIZE.
+            let mut recv_buf = [0; SOCK_SAMPLE_SIZE + 1];
 
             let selected: SelectResult = tokio::select! {
-                result = self.socket.recv(&mut buf) => {
+                result = self.socket.recv(&mut recv_buf) => {
                     SelectResult::SockRecv(result)
                 },
             };
+
+            let mut buf = [0; SOCK_SAMPLE_SIZE];
+            buf.copy_from_slice(&recv_buf[..SOCK_SAMPLE_SIZE]);
 
             match selected {
                 SelectResult::SockRecv(result) => match deserialize_sample(result, buf) {
